@@ -263,6 +263,7 @@ for _pid in OMAP_PROPS:
     PROPS[_pid]["rule"] = PROPS[_pid]["rule"] + "; omap stream: random sequences of Set/Get/UnsafeGet/At/Reverse/Copy/Merge/NewOrderedMapFromEntries on up to 7 real OrderedMaps (hash keys with twin objects, or free keys with replaced values; nil and undefined elements), every map observed after every operation"
 PROPS["C13"]["level_text"] += " The core stream is part of this check for one observation: a consumer of an unbuffered iteration that appends between receives must not block (deliveryOutsideLock)."
 PROPS["C14"]["level_text"] += " Locks below the log's own (the OrderedMap's) are outside the controlled schedules: a free-running stress of merges from logs that are being appended to (race detector, termination watchdog) is part of the check."
+PROPS["C15"]["level_text"] += " Both lower bounds at once (outside the property's 'inclusive or exclusive'): iter_range_gte_gt proves the emission is the part strictly before the GTE bound; the core stream generates the combination and compares model and code on it."
 PROPS["C15"]["level_text"] += " 'Always ends' under concurrent writers: the controlled schedules of the conc stream run Iterator against appends and merges; an Iterator call the watchdog waits for is reported as iterationEnds with the schedule."
 for _pid in OMAP_PROPS:
     PROPS[_pid]["level_text"] += " The OrderedMap underneath is modelled at the level of its representation (key slice + Go map, Model/OMapRep.lean); Props/OMapRefine proves that its operations are the list operations the theorems use (for maps keyed by the hashes of their values), and the omap stream compares the real OrderedMap with both levels."
